@@ -63,6 +63,30 @@ macro_rules! write_flags {
     };
 }
 
+/// Writes `#[variance(..)]` for the parameters of an ADT or fn definition.
+///
+/// Nothing is written if every parameter is invariant, as that is what a
+/// missing attribute means.
+fn write_variances<I: Interner>(
+    f: &mut Formatter<'_>,
+    interner: I,
+    variances: chalk_ir::Variances<I>,
+) -> Result {
+    let variances = variances.as_slice(interner);
+    if variances
+        .iter()
+        .any(|variance| *variance != chalk_ir::Variance::Invariant)
+    {
+        let names = variances.iter().map(|variance| match variance {
+            chalk_ir::Variance::Covariant => "Covariant",
+            chalk_ir::Variance::Invariant => "Invariant",
+            chalk_ir::Variance::Contravariant => "Contravariant",
+        });
+        writeln!(f, "#[variance({})]", names.format(", "))?;
+    }
+    Ok(())
+}
+
 impl<'a, I: Interner> RenderAsRust<I> for (&'a CoroutineDatum<I>, &'a CoroutineWitnessDatum<I>) {
     fn fmt(&self, _s: &InternalWriterState<'_, I>, _f: &'_ mut Formatter<'_>) -> Result {
         unimplemented!()
@@ -75,6 +99,13 @@ impl<I: Interner> RenderAsRust<I> for AdtDatum<I> {
         // changed to Some(0)
         let s = &s.add_debrujin_index(None);
         let value = self.binders.skip_binders();
+
+        // variances
+        write_variances(
+            f,
+            s.db().interner(),
+            s.db().unification_database().adt_variance(self.id),
+        )?;
 
         // flags
         write_flags!(
@@ -466,6 +497,13 @@ impl<I: Interner> RenderAsRust<I> for FnDefDatum<I> {
     fn fmt(&self, s: &InternalWriterState<'_, I>, f: &mut Formatter<'_>) -> Result {
         let s = &s.add_debrujin_index(None);
         let bound_datum = self.binders.skip_binders();
+
+        // variances
+        write_variances(
+            f,
+            s.db().interner(),
+            s.db().unification_database().fn_def_variance(self.id),
+        )?;
 
         // declaration
         // fn foo<T>(arg: u32, arg2: T) -> Result<T> where T: Bar
